@@ -234,9 +234,11 @@ pub fn build_gnu_case_named(is64: bool, le: bool, given: &[Vec<u8>], nbucket: u3
 /// (a chain word of zero is a legitimate entry), names that saturate the running SysV hash
 pub fn collision_family(gnu: bool) -> Vec<Vec<u8>> {
     let v: Vec<&[u8]> = if gnu {
-        vec![b"ab", b"bA", b"foo_ab_bar", b"foo_bA_bar", b"get_value", b"get_vbKue", b"get_valvD", b"agmtavdw", b"axakfuqj", b"agmtavdx", b"plain", b"other"]
+        vec![b"ab", b"bA", b"foo_ab_bar", b"foo_bA_bar", b"get_value", b"get_vbKue", b"get_valvD", b"agmtavdw", b"axakfuqj", b"agmtavdx", b"plain", b"other",
+             b"tick", b"tick\x01", b"tock\x01\x01", b"tock\x01", b"caf\xe9", b"caf", b"x\xe2\x82", b"x"]
     } else {
-        vec![b"aq", b"ba", b"init_aq", b"init_ba", b"x1", b"wA", b"dFykHtPlnC", b"pIikL1wOy", b"plain", b"other"]
+        vec![b"aq", b"ba", b"init_aq", b"init_ba", b"x1", b"wA", b"dFykHtPlnC", b"pIikL1wOy", b"plain", b"other",
+             b"tick", b"tick\x01", b"tock\x01\x01", b"tock\x01", b"caf\xe9", b"caf", b"x\xe2\x82", b"x"]
     };
     v.into_iter().map(|x| x.to_vec()).collect()
 }
